@@ -257,9 +257,20 @@ once with the count so far, and the padding length is computed from the returned
 (If the loop is edited this theorem fails and the model has to be revisited.) -/
 theorem C18_loop_shape : Gen.writeLoopStmts =
     ["n, err := w.Write(headerBytes)", "totalSize += int64(n)", "return totalSize, err",
-     "n, err := w.Write(body)", "totalSize += int64(n)", "return totalSize, err",
+     "range tableNames", "n, err := w.Write(body)", "totalSize += int64(n)", "return totalSize, err",
      "if k := n % 4; k != 0", "l, err := w.Write(pad[:4-k])", "totalSize += int64(l)",
      "return totalSize, err", "return totalSize, nil"] := by decide
+
+/-- The only optional interface the reading and writing code (header/, parser/, read.go,
+write.go) asks a source or destination for is `io.ReaderAt` in `sfnt.Read`; the other type
+assertions concern error values, the outline kind and the extra-table arguments.  The models
+consult a source only through `ReadAt` (or the whole stream) and a destination only through
+`Write`.  (A new assertion — `Size()`, `io.Seeker`, `io.WriterTo`… — makes this theorem fail.) -/
+theorem C18_type_asserts : Gen.ioTypeAsserts =
+    ["header/error.go: err.(*ErrMissing)", "parser/error.go: err.(*NotSupportedError)",
+     "read.go: r.(io.ReaderAt)", "write.go: f.Outlines.(type)", "write.go: f.Outlines.(*glyf.Outlines)",
+     "write.go: extraTables[i].(string)", "write.go: extraTables[i+1].([]byte)",
+     "write.go: f.Outlines.(*cff.Outlines)", "write.go: f.Outlines.(*glyf.Outlines)"] := by decide
 
 /-- the scaler types `header.Read` admits are those of the model (`scalerOk`) -/
 theorem C18_scalers : ∀ s, scalerOk s = true ↔ s ∈ Gen.scalerTypes := by
